@@ -3,6 +3,7 @@
 prefix first), lexicographic pairs, pull-backs, agreement on the set and the "absent is the top / the
 bottom" extensions preserve it.  Import-free. -/
 set_option linter.unusedVariables false
+set_option linter.unusedSimpArgs false
 namespace EupsModel.Order
 
 structure GoodOn {α : Type} (P : α → Prop) (cmp : α → α → Int) : Prop where
